@@ -6,6 +6,13 @@ Case = {"kind": "ds"|"dsu"|"cg",           Dataset() | Dataset(default_union=Tru
         "quads": [[s,p,o,g]…],               g = "D" (default graph) | "i<n>" | "b<n>"
         "api": int,                          which public calls build the dataset / bytes vs str input
         "enc": [format, encoding] | None,    serialize(format, encoding=…) for that ONE format (utf-8 | latin-1 | ascii | utf-16)
+        "src": {flag: True},                 how the source object is made: store_inst, dflt_base, graph_base, anon_graph
+                                             (Dataset.graph() without identifier), history (emptied / removed graphs), cg_id
+        "io": [format, {…}] | None,          how serialize()/parse() are called for ONE format: dest path|purepath|bytesio,
+                                             twice, direct (serializer instance used twice), alias (MIME name), noformat,
+                                             inp bytesio|stringio|path|purepath|location|file|inputsource, guess, pkw (parser keywords)
+        "pmode": None|"headers"|"remove"|"both",   RDF Patch call: target (default), target+headers, operation="remove",
+                                             operation+target; d2.kind / d2.copy_kind: default_union of target / patched copy
         "binds": [[prefix, namespace]…],     namespace bindings of the source dataset (prefixes spelling syntax keywords)
         "opt": [format, {keyword: value}] | None,   further serializer keywords for ONE format: json-ld context (prefix terms,
                                              @vocab, plain terms equal to graph / predicate IRIs, @base), auto_compact,
@@ -24,7 +31,11 @@ Observations (all canonical up to ONE renaming of blank nodes, graph names inclu
 Oracle (independent of Lean): isoutil.iso(expected quads, parsed quads) with the default graph a constant.
 """
 import hashlib
+import io
 import itertools
+import os
+import pathlib
+import tempfile
 import json
 import math
 import re
@@ -43,7 +54,7 @@ ID = "C06"
 LEAN_TARGETS = ["RV.C06.Props", "RV.C06.Audit"]
 AUDIT = "RV/C06/Audit.lean"
 DRIVER = "drv_c06"
-CASES = {"quick": 2000, "thorough": 40000, "search": 20000}
+CASES = {"quick": 1600, "thorough": 40000, "search": 20000}
 RULE = ("random datasets: 0-4 named graphs (IRI and blank-node names, registered-but-empty graphs, empty or "
         "non-empty default graph), triples shared by several graphs, blank nodes shared across graphs and with "
         "graph names, graph names occurring as subject/object, awkward and non-ASCII literals/IRIs, well-formed RDF "
@@ -78,6 +89,8 @@ IRIS = {"i1": URIRef(E + "a"), "i2": URIRef(E + "b"), "i3": URIRef(E + "c/d#e"),
         "i10": RDF.first, "i11": RDF.rest, "i12": RDF.nil,
         # non-ASCII: two look-alike graph names (Greek alpha / Cyrillic a: both become `?` under a lossy codec),
         # one name / node that Latin-1 can represent
+        "i16": URIRef(E + "dflt"),        # identifier given to a ConjunctiveGraph (its default context is then IRI-named)
+        "i17": URIRef(E + "anon"),        # placeholder: the graph made by Dataset.graph() without identifier (random skolem IRI)
         "i13": URIRef(E + "gr\u03b1ph"), "i14": URIRef(E + "gr\u0430ph"), "i15": URIRef(E + "s\u00e9")}
 LITS = {"l1": Literal(""), "l2": Literal("x"), "l3": Literal('a"b\\c\'d'), "l4": Literal("line1\nline2\ttab"),
         "l5": Literal("é☃\U0001F600"), "l6": Literal("<&> {} # _:z . ; }"), "l7": Literal("x", lang="en"),
@@ -94,6 +107,10 @@ NONASCII_NAMES = ["i13", "i14", "i15"]
 NONASCII = {"i13", "i14", "i15", "l5", "l11"}
 ENCODINGS = ["utf-8", "latin-1", "ascii", "utf-16"]      # None = the default (str result) is the no-axis case
 FORMATS = ["nquads", "trig", "trix", "hext", "jsonld", "patch"]
+ALIASES = {"nquads": "application/n-quads", "trig": "application/trig", "trix": "application/trix",
+           "jsonld": "application/ld+json"}
+SUFFIX = {"nquads": ".nq", "trig": ".trig", "trix": ".trix", "jsonld": ".jsonld"}      # rdflib.util.SUFFIX_FORMAT_MAP
+ANON_QUAD = ["i1", "i7", "l2", "i17"]
 # serializer keywords (one format per case); the JSON-LD contexts cover the namespaces the graph names live in
 CTX_PREFIXES = [("e", E), ("cd", E + "c/d#"), ("u", "urn:g:"), ("rdf", str(RDF)), ("xsd", str(XSD))]
 CTX_TERMS = [("g1", E + "g1"), ("g2", E + "g2"), ("a", E + "a"), ("p", E + "p"), ("q", E + "q"), ("three", "urn:g:3"),
@@ -134,6 +151,8 @@ def tok_of_key(k, bmap=None):
         if bmap and lab in bmap:
             return bmap[lab]
         return KEY2TOK.get(k) or "b~" + lab
+    if k[0] == "i" and bmap and k[1] in bmap:
+        return bmap[k[1]]
     return KEY2TOK.get(k) or ("D" if k == ("i", str(DEFAULT_ID)) else "?" + repr(k))
 
 
@@ -363,19 +382,87 @@ def gen_case(rng, tier, i):
     if rng.random() < 0.45:       # serializer keywords, on ONE format per case (json-ld has by far the most)
         F = rng.choice(["jsonld"] * 5 + (FORMATS if kind != "cg" else FORMATS[:-1]))
         opt = [F, _gen_opts(rng, F)]
+    big = tier == "thorough"
+    src = {}
+    if rng.random() < (0.3 if big else 0.15):        # how the source object came to be
+        for flag, ok in (("cg_id", kind == "cg"), ("anon_graph", kind != "cg"), ("graph_base", kind != "cg"),
+                         ("dflt_base", True), ("history", True), ("store_inst", True)):
+            if ok and rng.random() < 0.3:
+                src[flag] = True
+    iox = None
+    if rng.random() < (0.5 if big else 0.25):        # how serialize() / parse() are called, on ONE format per case
+        F = rng.choice(FORMATS if kind != "cg" else FORMATS[:-1])
+        o = {}
+        r = rng.random()
+        if r < 0.45:
+            o["dest"] = rng.choice(["path", "purepath", "bytesio"])
+        elif r < 0.6:
+            o["twice"] = True
+        elif r < 0.75:
+            o["direct"] = True
+        if F in ALIASES and rng.random() < 0.25:
+            o["alias"] = True
+        if F == "trig" and kind != "cg" and not o.get("direct") and rng.random() < 0.3:   # Dataset.serialize() defaults to trig
+            o["noformat"] = True
+        if rng.random() < 0.6:
+            o["inp"] = rng.choice(["bytesio", "stringio", "path", "purepath", "location", "file", "inputsource"])
+            if o["inp"] in ("path", "purepath", "location") and F in SUFFIX and rng.random() < 0.5:
+                o["guess"] = True
+        if rng.random() < 0.4:
+            o["pkw"] = rng.choice({
+                "nquads": [{"bnode_context": {}}],
+                "patch": [{"bnode_context": {}}],
+                "trix": [{"preserve_bnode_ids": True}, {"preserve_bnode_ids": False}],
+                "jsonld": [{"version": 1.0}, {"version": 1.1}, {"generalized_rdf": True}, {"encoding": "utf-8"},
+                           {"base_kw": True}],
+                "trig": [{"encoding": "utf-8"}],
+                "hext": [{"encoding": "utf-8"}]}[F])
+        if o:
+            iox = [F, o]
+    pmode = None
+    if d2 is not None:
+        r = rng.random()
+        if r < (0.45 if big else 0.3):
+            pmode = rng.choice(["headers", "remove", "both", "remove"])
+        if rng.random() < (0.4 if big else 0.25):
+            d2["kind"] = rng.choice(["ds", "dsu"])           # default_union of the target independent of the source's
+        if rng.random() < 0.2:
+            d2["copy_kind"] = rng.choice(["ds", "dsu"])      # … and of the dataset the patch is applied to
     return {"kind": kind, "reg": reg, "quads": quads, "api": rng.randrange(6), "d2": d2, "enc": enc, "opt": opt,
-            "binds": binds}
+            "binds": binds, "src": src, "io": iox, "pmode": pmode}
 
 
 # ------------------------------------------------------------------ building the datasets through the public API
 
-def build(kind, reg, quads, api=0, binds=()):
+def build(kind, reg, quads, api=0, binds=(), src=None):
+    src = src or {}
+    kw = {}
+    if src.get("store_inst"):
+        from rdflib.plugins.stores.memory import Memory
+        kw["store"] = Memory()
+    if src.get("dflt_base"):
+        kw["default_graph_base"] = E + "db/"
     if kind == "cg":
-        ds = ConjunctiveGraph()
+        ds = ConjunctiveGraph(identifier=TERM["i16"] if src.get("cg_id") else None, **kw)
     else:
-        ds = Dataset(default_union=(kind == "dsu"))
+        ds = Dataset(default_union=(kind == "dsu"), **kw)
     for pfx, ns in binds:
         ds.bind(pfx, ns)
+    if src.get("graph_base") and kind != "cg":
+        for g in list(reg) + [q[3] for q in quads if q[3] != "D"]:
+            ds.graph(TERM[g], base=E + "gb/")
+            break
+    if src.get("history"):           # graphs that held something once: emptied by remove(), dropped by remove_graph/_context
+        t = (TERM["i2"], TERM["i8"], TERM["l2"])
+        a, b = URIRef(E + "emptied"), URIRef(E + "removed")
+        ga = ds.get_context(a)
+        ga.add(t)
+        ga.remove(t)
+        ds.get_context(b).add(t)
+        if kind == "cg":
+            ds.remove_context(ds.get_context(b))
+        else:
+            ds.remove_graph(b)
     for g in reg:
         if kind == "cg":
             ds.store.add_graph(ds.get_context(TERM[g]))
@@ -399,8 +486,9 @@ def build(kind, reg, quads, api=0, binds=()):
     return ds
 
 
-def expected_quads(quads, default):
-    return {(TERM[s], TERM[p], TERM[o], default if g == "D" else TERM[g]) for s, p, o, g in quads}
+def expected_quads(quads, default, term=None):
+    term = term or TERM
+    return {(term[s], term[p], term[o], default if g == "D" else term[g]) for s, p, o, g in quads}
 
 
 def got_quads(ds):
@@ -777,19 +865,102 @@ def _exc(e):
 def run_impl(case):
     kind, reg, quads, api = case["kind"], case["reg"], case["quads"], case.get("api", 0)
     obs, viol, stats = [], [], {"kind_" + kind: 1, "quads": len(quads), "reg_graphs": len(reg)}
-    ds = build(kind, reg, quads, api, case.get("binds") or ())
+    src = case.get("src") or {}
+    for k in src:
+        stats["ax_src_" + k] = 1
+    ds = build(kind, reg, quads, api, case.get("binds") or (), src)
     default_id = ds.default_context.identifier
-    bmap = {str(default_id): CG_DEFAULT} if kind == "cg" else {}
-    exp_default = expected_quads(quads, DEFAULT_ID)
-    exp_literal = expected_quads(quads, default_id)
+    bmap = {str(default_id): _cg_default(case)} if kind == "cg" else {}
+    term = dict(TERM)
+    quads = _eff_quads(case)
+    if src.get("anon_graph") and kind != "cg":
+        g = ds.graph()                       # Dataset.graph() without identifier: a skolem IRI of its own
+        g.add(tuple(TERM[x] for x in ANON_QUAD[:3]))
+        term["i17"] = g.identifier
+        bmap[str(g.identifier)] = "i17"
+    exp_default = expected_quads(quads, DEFAULT_ID, term)
+    exp_literal = expected_quads(quads, default_id, term)
     before = got_quads(ds)
     enc_axis = case.get("enc")
-
+    io_axis = case.get("io")
     opt_axis = case.get("opt")
+    tmpfiles = []
 
-    def parse_back(fmt, data, base=None):
-        kw2 = {"publicID": base} if base else {}     # the caller who serialised relative to a base parses with it
-        return got_quads(Dataset(default_union=(api % 3 == 0)).parse(data=data, format=fmt, **kw2))
+    def tmp(suffix):
+        fd, path = tempfile.mkstemp(prefix="c06-", suffix=suffix)
+        os.close(fd)
+        tmpfiles.append(path)
+        return path
+
+    def do_serialize(F, fmt, kw, enc, iox):
+        """serialize() in the way the case asks for; returns str (no destination, no encoding) or bytes"""
+        if iox.get("alias"):
+            fmt = ALIASES[F]
+        fkw = {} if iox.get("noformat") else {"format": fmt}
+        ekw = {"encoding": enc} if enc is not None else {}
+        if iox.get("direct"):           # the serializer class itself, one instance used twice
+            from rdflib import plugin
+            from rdflib.serializer import Serializer
+            ser = plugin.get(fmt, Serializer)(ds)
+            for _ in range(2):
+                buf = io.BytesIO()
+                ser.serialize(buf, **{"base": None, "encoding": enc, **kw})
+            return buf.getvalue()
+        dest = iox.get("dest")
+        if dest is None:
+            out = ds.serialize(**fkw, **ekw, **kw)
+            if iox.get("twice"):
+                out = ds.serialize(**fkw, **ekw, **kw)
+            return out
+        if dest == "bytesio":
+            buf = io.BytesIO()
+            ds.serialize(destination=buf, **fkw, **ekw, **kw)
+            return buf.getvalue()
+        path = tmp(SUFFIX.get(F, ".dat"))
+        ds.serialize(destination=path if dest == "path" else pathlib.Path(path), **fkw, **ekw, **kw)
+        with open(path, "rb") as f:
+            return f.read()
+
+    def parse_back(F, fmt, doc, base, iox):
+        """parse() in the way the case asks for, into an empty Dataset"""
+        pkw = dict(iox.get("pkw") or {})
+        kw2 = {}
+        if base:                       # the caller who serialised relative to a base parses with it
+            if pkw.pop("base_kw", None):
+                kw2["base"] = base
+            else:
+                kw2["publicID"] = base
+        pkw.pop("base_kw", None)
+        if iox.get("alias"):
+            fmt = ALIASES[F]
+        if iox.get("guess"):
+            fmt = None
+        back = Dataset(default_union=(api % 3 == 0))
+        inp = iox.get("inp")
+        raw = doc if isinstance(doc, bytes) else doc.encode("utf-8")
+        if inp is None or (inp == "stringio" and isinstance(doc, bytes)):
+            back.parse(data=doc, format=fmt, **kw2, **pkw)
+        elif inp == "stringio":
+            back.parse(source=io.StringIO(doc), format=fmt, **kw2, **pkw)
+        elif inp == "bytesio":
+            back.parse(source=io.BytesIO(raw), format=fmt, **kw2, **pkw)
+        elif inp == "inputsource":
+            from rdflib.parser import create_input_source
+            back.parse(source=create_input_source(data=raw), format=fmt, **kw2, **pkw)
+        else:
+            path = tmp(SUFFIX.get(F, ".dat"))
+            with open(path, "wb") as f:
+                f.write(raw)
+            if inp == "path":
+                back.parse(source=path, format=fmt, **kw2, **pkw)
+            elif inp == "purepath":
+                back.parse(source=pathlib.Path(path), format=fmt, **kw2, **pkw)
+            elif inp == "location":
+                back.parse(location=path, format=fmt, **kw2, **pkw)
+            else:
+                with open(path, "rb") as f:
+                    back.parse(file=f, format=fmt, **kw2, **pkw)
+        return got_quads(back)
 
     def is_ok(got):
         # a ConjunctiveGraph's default context is also a blank-node-named graph of the store: both readings
@@ -813,12 +984,18 @@ def run_impl(case):
                 ds.bind("e", E)
         base = opts.get("base")
         enc = enc_axis[1] if enc_axis and enc_axis[0] == F else None
+        iox = dict(io_axis[1]) if io_axis and io_axis[0] == F else {}
+        for k, v in iox.items():
+            stats["ax_io_%s_%s" % (k, v if isinstance(v, str) else
+                                   ",".join(sorted(v)) if isinstance(v, dict) else "on")] = 1
+        if iox and enc is None and (iox.get("dest") or iox.get("direct")):
+            pass                          # bytes in the serializer's own default encoding (UTF-8)
         # candidates = [(document text for the independent reader, document as handed to the parser)]
         try:
             if enc is not None:
                 stats["enc_" + enc] = 1
                 try:
-                    data = ds.serialize(format=fmt, encoding=enc, **kw)
+                    data = do_serialize(F, fmt, kw, enc, iox)
                 except UnicodeEncodeError:
                     # acceptable refusal: the codec cannot represent the data and the serializer says so
                     stats["enc_refused"] = 1
@@ -834,6 +1011,9 @@ def run_impl(case):
                     cands.append((data if F == "trix" else data.decode("utf-8"), data))
                 except UnicodeError:
                     cands.append((None, data))
+            elif iox:
+                data = do_serialize(F, fmt, kw, None, iox)
+                cands = [(data.decode("utf-8"), data)] if isinstance(data, bytes) else [(data, data)]
             elif api % 2:
                 data = ds.serialize(format=fmt, encoding="utf-8", **kw)
                 cands = [(data.decode("utf-8"), data)]
@@ -848,7 +1028,7 @@ def run_impl(case):
         results = []
         for text, doc in cands:
             try:
-                got = parse_back(fmt, doc, base)
+                got = parse_back(F, fmt, doc, base, iox)
                 results.append((is_ok(got), text, got, None))
             except Exception as e:  # noqa: BLE001
                 results.append((False, text, None, e))
@@ -872,40 +1052,60 @@ def run_impl(case):
             obs.append("ERR-parse:" + _exc(err))
             viol.append(f"error-{F}: parse of own output raised {err!r}"[:300])
             continue
-        obs.append(line(quad_rows(got)))
+        obs.append(line(quad_rows(got, bmap)))
         if not ok:
             viol.append(f"roundtrip-{F}: quads after {F} round trip"
                         + (f" with encoding={enc!r}" if enc else "") + " differ from the dataset: expected "
-                        f"{line(quad_rows(exp_default))} got {line(quad_rows(got))}"[:600])
+                        f"{line(quad_rows(exp_default, bmap))} got {line(quad_rows(got, bmap))}"[:600])
     if got_quads(ds) != before:
         stats["source_mutated"] = 1     # C13's subject; recorded, not judged here
     d2 = case.get("d2")
     if d2 is not None and kind != "cg":
+        pmode = case.get("pmode")
+        k2, k3 = d2.get("kind", kind), d2.get("copy_kind", kind)
         stats["patch_pairs"] = 1
-        target = build(kind, d2["reg"], d2["quads"], api + 1)
-        exp2 = expected_quads(d2["quads"], DEFAULT_ID)
+        stats["ax_patch_mode_" + (pmode or "target")] = 1
+        stats["ax_patch_union_src_%s_target_%s_copy_%s" % (kind, k2, k3)] = 1
+        target = build(k2, d2["reg"], d2["quads"], api + 1)
+        exp1 = expected_quads(quads, DEFAULT_ID, term)
         try:
-            patch = ds.serialize(format="patch", target=target)
+            if pmode == "remove":        # operation="remove": the patch that empties d1 (= diff(d1, empty))
+                patch, start, want = ds.serialize(format="patch", operation="remove"), quads, set()
+            elif pmode == "both":        # operation AND target (documented: only one should be given; operation wins)
+                patch, start, want = ds.serialize(format="patch", operation="add", target=target), [], None
+            elif pmode == "headers":
+                patch = ds.serialize(format="patch", target=target, header_id="urn:h:2", header_prev="urn:h:1")
+                start, want = quads, expected_quads(d2["quads"], DEFAULT_ID, term)
+            else:
+                patch = ds.serialize(format="patch", target=target)
+                start, want = quads, expected_quads(d2["quads"], DEFAULT_ID, term)
             rows = read_patch(patch)
-            obs.append(line([(op, "D" if g is None else tok_of_key(g), tok_of_key(s), tok_of_key(p), tok_of_key(o))
-                             for op, g, s, p, o in rows], exact=True))
-            exp1 = expected_quads(quads, DEFAULT_ID)
+            obs.append(line([(op, "D" if g is None else tok_of_key(g, bmap), tok_of_key(s, bmap), tok_of_key(p, bmap),
+                              tok_of_key(o, bmap)) for op, g, s, p, o in rows], exact=True))
             adds = {(r[2], r[3], r[4], r[1]) for r in rows if r[0] == "A"}
             dels = {(r[2], r[3], r[4], r[1]) for r in rows if r[0] == "D"}
             if adds & dels:
                 viol.append("patch-disjoint: a quad is both added and deleted")
-            copy = build(kind, reg, quads, api + 2)
+            copy = build(k3, reg if start else [], [q for q in start if q != ANON_QUAD], api + 2)
+            if start and term.get("i17") is not TERM["i17"]:
+                copy.graph(term["i17"]).add(tuple(TERM[x] for x in ANON_QUAD[:3]))
             copy.parse(data=patch, format="patch")
             got = got_quads(copy)
-            obs.append(line(quad_rows(got), exact=True))
-            if got != exp2:
-                viol.append(f"patch-apply: diff(d1,d2) applied to d1 gives {line(quad_rows(got), True)} "
-                            f"but d2 is {line(quad_rows(exp2), True)} (patch rows: {obs[-2]})"[:700])
+            obs.append(line(quad_rows(got, bmap), exact=True))
+            if want is not None and got != want:
+                viol.append(f"patch-apply: the {pmode or 'diff(d1,d2)'} patch applied to d1 gives "
+                            f"{line(quad_rows(got, bmap), True)} but expected {line(quad_rows(want, bmap), True)} "
+                            f"(patch rows: {obs[-2]})"[:700])
             if got_quads(ds) != exp1 and not stats.get("source_mutated"):
                 stats["source_mutated"] = 1
         except Exception as e:  # noqa: BLE001
             obs += ["ERR-patch:" + _exc(e)] * (2 - (len(obs) % 2 == 1))
             viol.append(f"error-patchdiff: {e!r}"[:300])
+    for path in tmpfiles:
+        try:
+            os.unlink(path)
+        except OSError:
+            pass
     dests = {q[3] for q in quads}
     bn_names = {g for g in dests | set(reg) if g[0] == "b"}
     shared_b = [b for b in BNODES if len({q[3] for q in quads if b in q[:3]}) > 1]
@@ -932,8 +1132,19 @@ def run_impl(case):
 
 # ------------------------------------------------------------------ the model side
 
-def _src_line(word, kind, reg, quads):
-    d = CG_DEFAULT if kind == "cg" else "D"
+def _cg_default(case):
+    return "i16" if (case.get("src") or {}).get("cg_id") else CG_DEFAULT
+
+
+def _eff_quads(case):
+    """the quads of the source dataset, with the one put into the Dataset.graph() graph when the case asks for it"""
+    if (case.get("src") or {}).get("anon_graph") and case["kind"] != "cg":
+        return case["quads"] + [ANON_QUAD]
+    return case["quads"]
+
+
+def _src_line(word, kind, reg, quads, cg_default=CG_DEFAULT):
+    d = cg_default if kind == "cg" else "D"
     sub = (lambda g: d if g == "D" else g)
     return (f"{word} {1 if kind == 'cg' else 0} {d} | " + " ".join(reg) + " | "
             + " ".join(" ".join([s, p, o, sub(g)]) for s, p, o, g in quads))
@@ -941,14 +1152,21 @@ def _src_line(word, kind, reg, quads):
 
 def model_lines(case):
     kind = case["kind"]
-    lines = [_src_line("load", kind, case["reg"], case["quads"])]
+    quads = _eff_quads(case)
+    lines = [_src_line("load", kind, case["reg"], quads, _cg_default(case))]
     for F in FORMATS:
         if F == "patch" and kind == "cg":
             continue
         lines += ["emit " + F, "route " + F]
     d2 = case.get("d2")
     if d2 is not None and kind != "cg":
-        lines += [_src_line("load2", kind, d2["reg"], d2["quads"]), "diff", "apply"]
+        pmode = case.get("pmode")
+        if pmode == "remove":
+            lines += [_src_line("load2", kind, [], []), "diff", "apply"]
+        elif pmode == "both":      # an add patch of d1: the difference between the empty dataset and d1
+            lines += [_src_line("load", kind, [], []), _src_line("load2", kind, case["reg"], quads), "diff", "apply"]
+        else:
+            lines += [_src_line("load2", kind, d2["reg"], d2["quads"]), "diff", "apply"]
     return lines
 
 
